@@ -32,6 +32,11 @@ func c11(c *Ctx) {
 	sState(c, "R6/S-STATE")
 	c02R1(c, "R6/C02.R1")
 	c02R2(c, "R6/C02.R2")
+	// the in-repo sink keeps the contract takeSnapshot relies on before it
+	// compacts: Close() == nil only for a complete, durable, renamed snapshot
+	// (round-7 seed C12-M: a cleanup result overwrote finalize's error)
+	c15R1(c, "R7/C15.R1")
+	c15R2(c, "R7/C15.R2")
 }
 
 func sinkTracks(c *Ctx, createPrefix string) []engine.Track {
